@@ -326,6 +326,29 @@ def run(ctx, col, tier):
                     col.bad("R-IDXNORM", dd.qualname, dd.loc(c), "the key is normalised against the container's own length",
                             f"`{norm_src(c)}` normalises the key against `{a1}`, the length of an inner container, not `len(self)`: a negative index of a view / slice is "
                             f"shifted by the wrong length and raises IndexError or returns another tree", stmt="own-length", definite=True)
+    # relative paths are taken by os.path.relpath, never by cutting len(root) characters off a joined path
+    fsw = ctx.repo.get_def("swcgeom.core.population.Population.find_swcs")
+    cut = None
+    lens = {}
+    for n in own_nodes(fsw):
+        if isinstance(n, ast.Assign) and len(n.targets) == 1 and isinstance(n.targets[0], ast.Name):
+            lens[n.targets[0].id] = n.value
+    def _mentions_len_root(e, depth=0):
+        for x in ast.walk(e):
+            if isinstance(x, ast.Call) and isinstance(x.func, ast.Name) and x.func.id == "len" and x.args and isinstance(x.args[0], ast.Name) and x.args[0].id == "root":
+                return True
+            if isinstance(x, ast.Name) and x.id in lens and depth < 2 and _mentions_len_root(lens[x.id], depth + 1):
+                return True
+        return False
+    for n in own_nodes(fsw):
+        if isinstance(n, ast.Subscript) and isinstance(n.slice, ast.Slice) and n.slice.lower is not None and _mentions_len_root(n.slice.lower):
+            cut = n
+    normalised = any(isinstance(c, ast.Call) and (dotted(c.func) or "").rsplit(".", 1)[-1] in ("normpath", "abspath", "realpath", "rstrip") and any(
+        isinstance(a, ast.Name) and a.id == "root" for a in ast.walk(c)) for c in own_nodes(fsw))
+    if cut is not None and not normalised:
+        col.bad("R-ROWS", fsw.qualname, fsw.loc(cut), "paths relative to the root are computed by os.path.relpath",
+                f"`{norm_src(cut)}` cuts len(root) (+ separator) characters off the walked path: for a root written with a trailing separator (`dir/`) one character too many "
+                f"is cut (`sub` becomes `ub`), so nested files of that root are missing from the matched rows or the population fails to load", stmt="relpath-cut", definite=True)
     from ..rules import globlint
     globlint.run(ctx, col, ('swcgeom.core.population', 'swcgeom.transforms.population'))
     col.guard(iter_rule, ctx, col)
